@@ -23,7 +23,10 @@ open Model.CallsRun Model.Dispatch Model.LLEval
 
 /-- the accounting expressions regenerated from /repo -/
 def runTable : RunTable :=
-  ⟨callTable, Gen.Dispatch.nCallsInit, Gen.Dispatch.freshCalls, Gen.Dispatch.resumeDefault⟩
+  ⟨⟨Gen.Dispatch.warmupIncrement, Gen.Dispatch.warmupBatch, Gen.Dispatch.stepIncrement, Gen.Dispatch.stepBatch⟩,
+   Gen.Dispatch.nCallsInit, Gen.Dispatch.freshCalls, Gen.Dispatch.resumeDefault,
+   Gen.Dispatch.warmupDrawnInit, Gen.Dispatch.warmupDrawnStep,
+   Gen.Dispatch.warmupCap⟩
 
 /-! ### obligations on the regenerated source facts -/
 
@@ -37,20 +40,37 @@ theorem C13_calls_frame :
     Gen.Dispatch.freshCalls = "0" ∧ Gen.Dispatch.resumeDefault = "0" ∧ Gen.Dispatch.resumeDefaultOnlyIfNone = "1" ∧
     Gen.Dispatch.nCallsInit = "0" := by decide
 
-/-- ONE evaluation per counting site, on the batch the model says: the warm-up branch calls the likelihood once, on
-    `[prior_transform(u[i]) for i in range(n_particles)]`, and returns; the rest of `Mutator.run` never calls it directly but
+/-- ONE evaluation per counted batch, on the batch the model says: the warm-up branch calls the likelihood once before its redraw
+    loop and once per turn of it (cap test, then the call, then `n_drawn += n_particles`), each time on a fresh
+    `[prior_transform(u[i]) for i in range(n_particles)]`, adds `n_drawn` and returns; the rest of `Mutator.run` never calls it directly but
     hands it to `parallel_mcmc`; `_evaluate_likelihood` evaluates its own argument (in both blobs branches); the runner calls
     it on `[prior_transform(u_p) for u_p in u_prime]` with `u_prime = np.empty_like(self.u)`; the loop is a `while True` left
     only through `if _check_convergence(...): break`; each dispatch branch of `_log_like` is one statement and the user's
     function is referenced exactly once per branch -/
 theorem C13_source_one_evaluation_per_site :
-    Gen.Dispatch.warmupLikelihoodArgs = ["prior_transform over range(self.n_particles)"] ∧
+    Gen.Dispatch.warmupLikelihoodArgs =
+      ["prior_transform over range(self.n_particles)", "prior_transform over range(self.n_particles)"] ∧
+    Gen.Dispatch.warmupLoop = "while np.all(np.isinf(logl))" ∧ Gen.Dispatch.warmupLoopCalls = "before=1 inside=1 after=0" ∧
+    Gen.Dispatch.warmupLoopOrder = "If,Assign,AugAssign" ∧
+    Gen.Dispatch.warmupIncrement = "n_drawn" ∧ Gen.Dispatch.warmupDrawnInit = "self.n_particles" ∧
+    Gen.Dispatch.warmupDrawnStep = "self.n_particles" ∧ Gen.Dispatch.warmupCap = "1000 * self.n_particles" ∧
     Gen.Dispatch.mutateOtherLikelihoodArgs = [] ∧ Gen.Dispatch.warmupEndsWithReturn = "1" ∧
     Gen.Dispatch.mcmcLikelihoodArg = "self.log_likelihood" ∧
     Gen.Dispatch.evaluateLikelihoodArgs = ["param", "param"] ∧
     Gen.Dispatch.stepBatchBuilt = ["prior_transform over u_prime"] ∧ Gen.Dispatch.proposalRows = ["np.empty_like(self.u)"] ∧
     Gen.Dispatch.mcmcLoop = "while True|breaks=1|guard=self._check_convergence" ∧
     Gen.Dispatch.logLikeBranchStmts = "1,1,1" ∧ Gen.Dispatch.logLikeUserRefs = "3" := by decide
+
+/-- how a run starts: a resume path ⇒ `_initialize_from_resume`; else a committed history ⇒ nothing is initialised (the counter
+    keeps its value); else `_initialize_fresh` -/
+theorem C13_source_start :
+    Gen.Dispatch.runStart = [("path", "resume"), ("history", "continue"), ("else", "fresh")] ∧
+    (∀ n, startKind Gen.Dispatch.runStart true n = some .resume) ∧
+    (∀ n, 0 < n → startKind Gen.Dispatch.runStart false n = some .continued) ∧
+    startKind Gen.Dispatch.runStart false 0 = some .fresh := by
+  refine ⟨by decide, fun n => by simp [startKind, Gen.Dispatch.runStart], fun n hn => ?_, by decide⟩
+  have : ¬ n = 0 := by omega
+  simp [startKind, Gen.Dispatch.runStart, hn]
 
 /-- `FunctionWrapper` is `f(x, *args, **kwargs)` with `None` replaced by the empty list / dict -/
 theorem C13_source_wrapper :
@@ -75,10 +95,16 @@ theorem points_append (a b : List (List X)) : points (a ++ b) = points a + point
 theorem points_single (x : List X) : points [x] = x.length := by simp [points]
 
 theorem stepInc_eval (nP nw : Nat) : exprSize ⟨nP, nw⟩ runTable.calls.stepIncrement = some nw := by
-  simp [runTable, callTable, Gen.Dispatch.stepIncrement, exprSize]
+  simp [runTable, Gen.Dispatch.stepIncrement, exprSize]
 
-theorem warmInc_eval (nP nw : Nat) : exprSize ⟨nP, nw⟩ runTable.calls.warmupIncrement = some nP := by
-  simp [runTable, callTable, Gen.Dispatch.warmupIncrement, exprSize]
+theorem warmInit_eval (nP nw : Nat) : exprSize ⟨nP, nw⟩ runTable.warmDrawnInit = some nP := by
+  simp [runTable, Gen.Dispatch.warmupDrawnInit, exprSize]
+
+theorem warmStep_eval (nP nw : Nat) : exprSize ⟨nP, nw⟩ runTable.warmDrawnStep = some nP := by
+  simp [runTable, Gen.Dispatch.warmupDrawnStep, exprSize]
+
+theorem warmInc_eval (e : Env) (nDrawn : Nat) : warmIncrement e nDrawn runTable.calls.warmupIncrement = some nDrawn := by
+  simp [runTable, Gen.Dispatch.warmupIncrement, warmIncrement]
 
 /-! ### the counter follows the batches -/
 
@@ -113,17 +139,61 @@ theorem mcmcLoop_calls (A : Algo S M X V) (ev : Nat → List X → Option V) (nP
         · exact h4 b hb
       · rw [h5]; simp [Nat.succ_mul]; omega
 
-/-- `Mutator.run`: the counter grows by exactly the number of points in the batches evaluated during the call -/
+/-- the redraw loop: `n_drawn` grows by the number of points in the batches it evaluated, each of `n_particles` points -/
+theorem warmLoop_calls (A : Algo S M X V) (ev : Nat → List X → Option V) (nP nw : Nat) (cap : Option Nat)
+    (hd : ∀ s, (A.draw s).length = nP) (fuel : Nat) (s : S) (x : List X) (v : V) (n0 : Nat) (asked : List (List X))
+    (s' : S) (x' : List X) (v' : V) (n1 : Nat) (asked' : List (List X))
+    (h : warmLoop runTable A ev ⟨nP, nw⟩ cap fuel s x v n0 asked = some (s', x', v', n1, asked')) :
+    ∃ bs, asked' = asked ++ bs ∧ n1 = n0 + points bs ∧ (∀ b ∈ bs, b.length = nP) ∧ n1 = n0 + bs.length * nP ∧
+      A.allInf v' = false := by
+  induction fuel generalizing s x v n0 asked with
+  | zero =>
+    simp only [warmLoop] at h
+    by_cases hv : A.allInf v = true
+    · simp [hv] at h
+    · simp only [hv, Bool.false_eq_true, if_false, Option.some.injEq, Prod.mk.injEq] at h
+      obtain ⟨_, _, rfl, rfl, rfl⟩ := h
+      exact ⟨[], by simp, by simp [points], by simp, by simp, by simpa using hv⟩
+  | succ fuel ih =>
+    simp only [warmLoop] at h
+    by_cases hv : A.allInf v = true
+    · simp only [hv, if_true] at h
+      by_cases hc : capReached cap n0 = true
+      · simp [hc] at h
+      · simp only [hc, Bool.false_eq_true, if_false, Option.bind_eq_some_iff] at h
+        obtain ⟨v1, _, inc, hinc, h⟩ := h
+        rw [warmStep_eval] at hinc
+        injection hinc with hinc; subst hinc
+        obtain ⟨bs, h1, h2, h3, h4, h5⟩ := ih _ _ _ _ _ h
+        refine ⟨A.draw s :: bs, by simp [h1], ?_, ?_, ?_, h5⟩
+        · rw [h2]; simp [points, hd]; omega
+        · intro b hb
+          rcases List.mem_cons.mp hb with rfl | hb
+          · exact hd s
+          · exact h3 b hb
+        · rw [h4]; simp [Nat.succ_mul]; omega
+    · simp only [hv, Bool.false_eq_true, if_false, Option.some.injEq, Prod.mk.injEq] at h
+      obtain ⟨_, _, rfl, rfl, rfl⟩ := h
+      exact ⟨[], by simp, by simp [points], by simp, by simp, by simpa using hv⟩
+
+/-- `Mutator.run`: the counter grows by exactly the number of points in the batches evaluated during the call — in the
+    warm-up branch that is the first draw plus every redraw -/
 theorem mutate_calls (A : Algo S M X V) (ev : Nat → List X → Option V) (nP : Nat) (rows : M → Nat)
-    (hs : Sized A nP rows) (fuel : Nat) (r r' : RS S X) (h : mutate runTable A ev nP fuel r = some r') :
+    (hs : Sized A nP rows) (fuel : Nat) (r r' : RS S X) (wfuel : Nat)
+    (h : mutate runTable A ev nP fuel r wfuel = some r') :
     ∃ bs, r'.asked = r.asked ++ bs ∧ r'.calls = r.calls + points bs ∧ bs ≠ [] := by
   unfold mutate at h
   split at h
   · simp only [Option.bind_eq_some_iff, Option.map_eq_some_iff] at h
-    obtain ⟨v, _, inc, hinc, rfl⟩ := h
+    obtain ⟨v, _, n0, hn0, cap, _, ⟨s', x', v', nDrawn, asked'⟩, hl, inc, hinc, rfl⟩ := h
+    rw [warmInit_eval] at hn0
+    injection hn0 with hn0; subst hn0
     rw [warmInc_eval] at hinc
     injection hinc with hinc; subst hinc
-    exact ⟨[A.draw r.s], rfl, by simp [points_single, hs.draw], by simp⟩
+    obtain ⟨bs, h1, h2, _, _, _⟩ := warmLoop_calls A ev nP _ cap hs.draw wfuel _ _ _ _ _ _ _ _ _ _ hl
+    refine ⟨A.draw r.s :: bs, by simp [h1], ?_, by simp⟩
+    simp only [h2]
+    simp [points, hs.draw]
   · simp only [Option.bind_eq_some_iff, Option.map_eq_some_iff] at h
     obtain ⟨n0, hn0, ⟨m, nc, asked'⟩, hl, rfl⟩ := h
     have : n0 = 0 := by
@@ -133,12 +203,29 @@ theorem mutate_calls (A : Algo S M X V) (ev : Nat → List X → Option V) (nP :
       (hs.init r.s) m nc asked' hl
     exact ⟨bs, h1, by simp [h2], h3⟩
 
+/-- a warm-up iteration that needed `k` redraws reports `(k + 1)·n_particles` more calls, and the batch it keeps has a finite draw -/
+theorem C13_warmup_redraws (A : Algo S M X V) (ev : Nat → List X → Option V) (nP : Nat) (rows : M → Nat)
+    (hs : Sized A nP rows) (fuel : Nat) (r r' : RS S X) (wfuel : Nat) (hb : A.beta0 r.s = true)
+    (h : mutate runTable A ev nP fuel r wfuel = some r') :
+    ∃ k, r'.asked.length = r.asked.length + (k + 1) ∧ r'.calls = r.calls + (k + 1) * nP := by
+  unfold mutate at h
+  simp only [hb, if_true, Option.bind_eq_some_iff, Option.map_eq_some_iff] at h
+  obtain ⟨v, _, n0, hn0, cap, _, ⟨s', x', v', nDrawn, asked'⟩, hl, inc, hinc, rfl⟩ := h
+  rw [warmInit_eval] at hn0
+  injection hn0 with hn0; subst hn0
+  rw [warmInc_eval] at hinc
+  injection hinc with hinc; subst hinc
+  obtain ⟨bs, h1, _, _, h4, _⟩ := warmLoop_calls A ev nP _ cap hs.draw wfuel _ _ _ _ _ _ _ _ _ _ hl
+  refine ⟨bs.length, ?_, ?_⟩
+  · simp [h1]
+  · simp only [h4]; ring
+
 theorem iteration_calls (A : Algo S M X V) (ev : Nat → List X → Option V) (nP : Nat) (rows : M → Nat)
     (hs : Sized A nP rows) (fuel : Nat) (r r' : RS S X) (h : iteration runTable A ev nP fuel r = some r') :
     ∃ bs, r'.asked = r.asked ++ bs ∧ r'.calls = r.calls + points bs ∧ bs ≠ [] := by
   simp only [iteration, Option.map_eq_some_iff] at h
   obtain ⟨r1, h1, rfl⟩ := h
-  obtain ⟨bs, a, b, c⟩ := mutate_calls A ev nP rows hs fuel _ r1 h1
+  obtain ⟨bs, a, b, c⟩ := mutate_calls A ev nP rows hs fuel _ r1 1001 h1
   exact ⟨bs, a, b, c⟩
 
 /-- the invariant `calls − (points asked) = constant` over any number of iterations -/
@@ -183,6 +270,7 @@ def startCalls : Start S → Nat
   | .fresh _ => 0
   | .resume _ (some c) => c
   | .resume _ none => 0
+  | .continued _ c => c
 
 theorem begin_eq (st : Start S) : ∃ s, begin (X := X) runTable st = some ⟨s, startCalls st, []⟩ := by
   cases st with
@@ -191,6 +279,7 @@ theorem begin_eq (st : Start S) : ∃ s, begin (X := X) runTable st = some ⟨s,
     cases c with
     | some c => exact ⟨s, rfl⟩
     | none => exact ⟨s, by simp [begin, runTable, Gen.Dispatch.resumeDefault, startCalls, litNat]⟩
+  | continued s c => exact ⟨s, rfl⟩
 
 /-- C13 (calls, whole run): when `run_sampling` returns, the reported number of calls is the value the run started from
     (0 for a fresh run, the checkpoint's count for a resumed one) plus the number of points in all batches handed to
@@ -305,6 +394,15 @@ theorem C13_resume_missing_calls (A : Algo S M X V) (ev : Nat → List X → Opt
   have := C13_run_calls A ev nP rows hs fuel iters _ r h
   simpa [startCalls] using this
 
+/-- a second `run()` on the same sampler, or `load_state()` followed by `run()` (committed history, no resume path): the counter is
+    NOT reset — the final count is the value it had plus the points evaluated by this call of `run()` -/
+theorem C13_second_run_continues (A : Algo S M X V) (ev : Nat → List X → Option V) (nP : Nat) (rows : M → Nat)
+    (hs : Sized A nP rows) (fuel iters : Nat) (s1 : S) (c : Nat) (r : RS S X)
+    (h : runSampling runTable A ev nP fuel iters (.continued s1 c) = some r) :
+    r.calls = c + points r.asked := by
+  have := C13_run_calls A ev nP rows hs fuel iters _ r h
+  simpa [startCalls] using this
+
 /-! ### how many batches one mutation evaluates -/
 
 /-- generic bound: if the stopping test is implied by `cap ≤ iteration` and implies `lo ≤ iteration`, the loop started at
@@ -393,10 +491,13 @@ theorem C13_mutation_steps (A : Algo S M X V) (ev : Nat → List X → Option V)
 
 /-! ### non-vacuity: a concrete scripted run (the instance the driver executes) -/
 
-example : (runSampling runTable (scripted 8 8) (fun _ _ => some ()) 8 100 50 (.fresh [.warm, .warm, .mcmc 3, .mcmc 2])).map
-    (fun r => (r.calls, r.asked.map List.length)) = some (56, [8, 8, 8, 8, 8, 8, 8]) := by decide
-example : (runSampling runTable (scripted 8 8) (fun _ _ => some ()) 8 100 50 (.resume [.mcmc 2] (some 40))).map
+example : (runSampling runTable (scripted 8 8) (scriptEv (scriptFlags [.warm 2, .warm 0, .mcmc 3, .mcmc 2])) 8 100 50
+      (.fresh [.warm 2, .warm 0, .mcmc 3, .mcmc 2])).map
+    (fun r => (r.calls, r.asked.map List.length)) = some (72, [8, 8, 8, 8, 8, 8, 8, 8, 8]) := by decide
+example : (runSampling runTable (scripted 8 8) (scriptEv (scriptFlags [.mcmc 2])) 8 100 50 (.resume [.mcmc 2] (some 40))).map
     (fun r => (r.calls, r.asked.map List.length)) = some (56, [8, 8]) := by decide
+example : (runSampling runTable (scripted 8 8) (scriptEv (scriptFlags [.warm 1])) 8 100 50 (.continued [.warm 1] 56)).map
+    (fun r => (r.calls, r.asked.map List.length)) = some (72, [8, 8]) := by decide
 example : Sized (scripted 8 8) 8 (fun _ => 8) := ⟨fun _ => by simp [scripted], fun _ => by simp [scripted], fun _ _ _ => rfl, fun _ => rfl⟩
 
 /-- a runner that stops by the REAL rule (n_steps = 1, n_max = 2, d = 2, constant acceptance 1 and step size 1): instance of the
@@ -406,7 +507,9 @@ noncomputable def stepAlgo : Algo Unit Nat Unit Unit where
   prep s := s
   beta0 _ := false
   draw _ := List.replicate 4 ()
-  warmStore s _ _ := s
+  afterDraw s := s
+  allInf _ := false
+  warmStore s _ _ _ := s
   mcmcInit _ := 0
   nWalkers _ := 4
   propose _ := List.replicate 4 ()
